@@ -398,10 +398,57 @@ def _lower_structured(stmts: list[ast.stmt], ret) -> list[ast.stmt]:
                 return [ast.Try(go(list(s.body), None) or [ast.Pass()], hs, [], list(s.finalbody))]
             if isinstance(s, ast.With) and not rest and k is None:
                 return [ast.With(s.items, go(list(s.body), None) or [ast.Pass()])]
+            if isinstance(s, (ast.While, ast.For)) and not rest and k is None and not s.orelse and _returns_at_loop_level(s):
+                # the loop is the last statement of the helper: `return e` = deliver e and leave the loop
+                s2 = copy.deepcopy(s)
+                _returns_to_breaks(s2.body, ret)
+                return [s2]
             raise CannotInline(f"return inside {type(s).__name__}")
         return [s] + go(rest, k)
 
     return go(stmts, None)
+
+
+def _returns_at_loop_level(loop) -> bool:
+    """Every `return` inside the loop belongs to this loop level (not to a nested loop)."""
+    def ok(stmts) -> bool:
+        for st in stmts:
+            if isinstance(st, (ast.For, ast.While)):
+                if any(isinstance(n, ast.Return) for n in ast.walk(st)):
+                    return False
+                continue
+            if isinstance(st, (ast.FunctionDef, ast.AsyncFunctionDef, ast.ClassDef)):
+                continue
+            for fld in ("body", "orelse", "finalbody"):
+                b = getattr(st, fld, None)
+                if isinstance(b, list) and b and isinstance(b[0], ast.stmt) and not ok(b):
+                    return False
+            if isinstance(st, ast.Try):
+                for h in st.handlers:
+                    if not ok(h.body):
+                        return False
+        return True
+    return ok(loop.body)
+
+
+def _returns_to_breaks(stmts: list, ret) -> None:
+    i = 0
+    while i < len(stmts):
+        st = stmts[i]
+        if isinstance(st, ast.Return):
+            new = ret(st.value) + [ast.Break()]
+            stmts[i:i + 1] = new
+            i += len(new)
+            continue
+        if not isinstance(st, (ast.For, ast.While, ast.FunctionDef, ast.AsyncFunctionDef, ast.ClassDef)):
+            for fld in ("body", "orelse", "finalbody"):
+                b = getattr(st, fld, None)
+                if isinstance(b, list) and b and isinstance(b[0], ast.stmt):
+                    _returns_to_breaks(b, ret)
+            if isinstance(st, ast.Try):
+                for h in st.handlers:
+                    _returns_to_breaks(h.body, ret)
+        i += 1
 
 
 def _simplify(e: ast.expr) -> ast.expr:
